@@ -16,6 +16,25 @@ def run(ctx):
     else:
         cfgs = [(3, 3, [4095, 4096, 4097, 9000])]
     storagecheck.run(ctx, cfgs, noise=False)
+    # ---- code -> spec: random byte contents validated by Trace_Storage ----
+    import os
+    import vf
+    trace = os.path.join(ctx.work, "st-trace.ndjson")
+    tmp = os.path.join(ctx.work, "files")
+    os.makedirs(tmp, exist_ok=True)
+    d = ctx.vh(["drive-storage", "n=%d" % (400 if ctx.tier == "quick" else 6000), "out=" + trace, "dir=" + tmp], timeout=3000)
+    nev, rejects = ctx.validate_trace("Trace_Storage", trace, chunk=400, procs=(2 if ctx.tier == "quick" else 8))
+    ctx.validated += nev - len(rejects)
+    ctx.evaluations += nev
+    ctx.nontrivial += d["rules_scanned"]
+    ctx.extra["trace_storages"] = nev
+    if rejects:
+        events = vf.read_ndjson(trace)
+        for rj in rejects[:30]:
+            e = events[rj["l"] - 1]
+            ctx.report("%s-backed storage from random bytes: scan/retrieval differs from the line-by-line reference parse: expected %s, scanned %s %s" % (
+                e["store"], str(rj["spec"])[:300], str(rj["code"])[:300], e.get("note", "")[:200]),
+                {"reexec": ["drive-storage"], "event": e, "seed": ctx.seed}, {"cause": "random-bytes", "store": e["store"]})
 
 
 replay = storagecheck.replay
